@@ -1218,6 +1218,26 @@ func genSchedule(p *params, emit func(string, bool)) {
 			emit(scenario(pr, ops), true)
 		}
 	}
+	// "ends when the workflow stops": the scheduler fails (its Latest lookup, or the Store of its trigger), waits out the error
+	// back-off, and loses its role / its instance crashes DURING that back-off: the wait ends at once and the process goes back
+	// to asking for its role — it neither sleeps the back-off out nor goes on with the iteration
+	{
+		prb := mkProg("sched-backoff", "S:1:R,1,2:2:0:0:0 Z:5:1:9:0 Z:6:1:3:0 O:bo=5000000000")
+		round := func() []string { return append(prb.round(), "st:1/c5", "st:1/c6") }
+		for _, fault := range []string{"st:1/c5@LT.0.eb", "st:1/c5@LT.0.ea"} {
+			for _, cut := range []string{"lose:1/c5", "crash:1 sched:1:5 sched:1:6"} {
+				for _, d := range []int64{0, 1, 4, 5, 60} {
+					ops := []string{"sched:1:5", "sched:1:6", fault, "st:1/c6", fmt.Sprintf("adv:%d", d*sec)}
+					ops = append(ops, strings.Fields(cut)...)
+					ops = append(ops, round()...)
+					ops = append(ops, fmt.Sprintf("adv:%d", 60*sec))
+					ops = append(ops, round()...)
+					ops = append(ops, round()...)
+					emit(scenario(prb, ops), true)
+				}
+			}
+		}
+	}
 	// an invalid cron specification is rejected at once and starts nothing
 	pr := mkProg("schedbad", "S:1:R,1,2:2:0:0:0 Z:5:1:9:0")
 	emit(scenario(pr, append([]string{"schedbad:1:5"}, pr.rounds(2)...)), true)
